@@ -29,6 +29,8 @@ Why(e) ==
      ELSE IF destroyed \ seen_d # {} THEN <<"object not released (leak)", e.op, CHOOSE o \in destroyed \ seen_d : TRUE>>
      ELSE IF Count(e, "dtor") + Count(e, "free") # Cardinality(seen_d) THEN <<"object released twice by one statement", e.op>>
      ELSE IF seen_c # created THEN <<"unexpected object construction", e.op>>
+     ELSE IF \E j \in 1..Len(e.lib) : e.lib[j].ev = "dtor" /\ e.lib[j].k # e.lib[j].ck THEN
+          <<"object destroyed through the destructor of another type", e.op>>
      ELSE IF Ids(e, "pool") # {o \in destroyed : heap'[o].how = "pool"} THEN <<"memory released with the wrong release code", e.op>>
      ELSE IF Ids(e, "free") # {o \in destroyed : heap'[o].how = "free"} THEN <<"plain memory released with the wrong deallocator", e.op>>
      ELSE <<>>
